@@ -144,11 +144,24 @@ SYM = [("e", "\x1b[7m"), ("t", "→"), ("e", "\x1b[0m")]
 SGR_OR_OSC = re.compile(r"\x1b\[[0-9;]*m|\x1b\[[0-9;]*K")
 
 
-def long_body(rng, body, limit):
-    """`body` lengthened beyond `limit` bytes (1-3 times; 60-180 bytes when there is no limit)"""
+# candidates for ONE grapheme cluster wider than 2 columns (Hangul jamo sequences, emoji + modifiers / ZWJ sequences): what
+# the implementation's tables make of them is read per line and counted (`raw:cut-at-cluster-width=N`)
+WIDE_CLUSTERS = ["\u1100\uac00", "\u1100\u1100\u1161", "\u1100\uac00\u11a8", "\U0001f44d\U0001f3fd",
+                 "\U0001f468\u200d\U0001f469\u200d\U0001f467", "\U0001f926\U0001f3fc\u200d\u2642\ufe0f",
+                 "\u2764\u200d\U0001f525"]
+
+
+def long_body(rng, body, limit, keep=0):
+    """`body` lengthened beyond `limit` bytes (1-3 times; 60-180 bytes when there is no limit). Under a limit, in a
+    third of the cases the body is (its first `keep` characters: the marker columns of a combined diff, then) one-column
+    characters up to 0-2 columns before the cut, then a cluster wider than 2 columns: the cut falls inside that cluster
+    (the `width_of_grapheme > 2` arm of `truncate_str_impl`)."""
     target = (limit if limit else 60) * rng.uniform(1.05, 3.0) + 2
     target = min(target, 700)
     out = body
+    if limit and rng.random() < 0.34:
+        k = max(0, limit - 1 - (keep if keep else 1) - rng.randint(0, 2))
+        out = body[:keep] + "".join(rng.choice("abcxyz01_") for _ in range(k)) + rng.choice(WIDE_CLUSTERS)
     while len(out.encode()) < target:
         out += rng.choice(LONG_PIECES)
     return out
@@ -166,7 +179,7 @@ def lengthen(rng, lines, files, src, limit):
             return lines, changed
         for i in range(start, len(lines)):
             if not lines[i].startswith(("++<<<<<<<", "++|||||||", "++=======", "++>>>>>>>")) and rng.random() < 0.3:
-                lines[i] = long_body(rng, lines[i], limit); changed.append(i)
+                lines[i] = long_body(rng, lines[i], limit, keep=3); changed.append(i)
         return lines, changed
     cur = 0
     for f in files:
@@ -326,7 +339,8 @@ def observe_raw(ctx, uni, cases):
 def cut_line(line, limit, clusters):
     """Independent reading of the property's clause on long lines: kept whole unless longer than the limit (bytes) and
     wider than it (columns); otherwise the longest prefix of clusters that leaves one column for the mark, a blank for
-    a split two-column cluster, and the mark."""
+    a split two-column cluster (for a split cluster wider than two columns: blanks up to the mark - the fallback of
+    `truncate_str_impl`, reached since fix d6cf9d0), and the mark."""
     if limit == 0 or len(line.encode()) <= limit or sum(w for _, w in clusters) <= limit:
         return line
     room, used, out = limit - 1, 0, ""
@@ -334,6 +348,8 @@ def cut_line(line, limit, clusters):
         if used + w > room:
             if w == 2 and used < room:
                 out += " "
+            elif w > 2:
+                out += " " * max(0, room - used)
             break
         out += g; used += w
     return out + "→"
@@ -411,6 +427,21 @@ def check_raw(ctx, rep, uni, metas):
         rep.count("raw:source:" + src)
         rep.count("raw:limit:" + ("0" if limit == 0 else "1-5" if limit <= 5 else "10-40" if limit <= 40 else ">=60"))
         rep.count("raw:lines-cut", ncut) if ncut else rep.count("raw:no-line-cut")
+        if impl.ok and limit:
+            for l, o in zip(lines, impl.obs):
+                if "\r" in l or l not in uni.el or o["raw"] == l.encode():
+                    continue
+                used, cw = 0, None     # the walk of `truncate_str_impl` next to the one-column mark
+                for k, x in uni.el[l]:
+                    for _, w in (uni.g.get(x, []) if k == "t" and cw is None else []):
+                        if used + w > limit - 1:
+                            cw = w
+                            break
+                        used += w
+                if cw is not None:
+                    rep.count("raw:cut-at-cluster-width=%s" % (cw if cw < 5 else "5+"))
+                    if cw > 2:
+                        rep.count("raw:cut-at-cluster-wider-than-2")
         if impl.panic:
             rep.violation("panic:max-line-length:" + impl.msg[:50], "implementation panicked/exited: " + impl.msg[:200], case)
             continue
@@ -429,8 +460,9 @@ def check_raw(ctx, rep, uni, metas):
             if model.panic and "strange grapheme" in model.msg:
                 rep.count("raw:model-debug-assert")
                 if not source_has_width_assert():
-                    # the model's error branch IS the `debug_assert!` of truncate_str_impl; a tree without it (the proposed
-                    # repair) takes the fallback instead, which the model does not describe
+                    # the model's error branch IS the `debug_assert!` of truncate_str_impl; the model follows the source
+                    # (generated flag `truncateAssertsWideCluster`): on a tree without the assertion it takes the fallback
+                    # and this branch is not reached
                     skip = "raw:skipped-debug-assert-branch-not-in-source"
             if "coloured" in src and any(o["raw"][:1] == b"\x1b" and o["text"][:1] not in (b"-", b"+") and l[:1] == "\x1b"
                                          and o["state"].startswith("Hunk") for l, o in zip(lines, impl.obs)):
